@@ -20,7 +20,8 @@ EXPLANATION = (
     "path. Full recycle keeps state and hash: from Step.after_recycle no path reaches delete_hash/set_hash, and "
     "re-pending happens only for FAILED or hash-less SUCCEEDED steps. The stat shortcut of FileHash.refreshed "
     "compares the whole stat signature. Decides who may invalidate, not that no spurious rerun occurs for every "
-    "reachable database."
+    "reachable database. "
+    'Also (R-C04-6): the two digest computations pass the same ingredients read from the same environment (base_env, no default), glob registrations keep their substitutions on the director side, and the restart rescan rebuilds the registered matcher, so that neither site sees phantom changes.'
 )
 ASSUMPTIONS = ["cone minimality for every history is not decided"]
 
